@@ -69,6 +69,22 @@ def build_units(g):
         u.append(g.fn_text("lib.rs", S.top("lib.rs", "fn", "has_path"), "lib.rs::has_path"))
         units.append(("deadlock_detection", "\n".join(u)))
 
+    # ---------------- metrics (metrics/collector.rs, metrics/snapshot.rs)
+    if metrics:
+        f = "metrics/collector.rs"
+        u = [g.type_text("metrics/snapshot.rs", S.top("metrics/snapshot.rs", "struct", "MetricsSnapshot"), "metrics/snapshot.rs::MetricsSnapshot"),
+             g.type_text(f, S.top(f, "struct", "MetricsCollector"), f + "::MetricsCollector")]
+        mi = S.impl_by(f, self_ty="MetricsCollector", trait_head=None)
+        u.append(g.impl_text(f, mi, ["new", "record_message", "snapshot", "message_count", "avg_processing_time", "max_processing_time"],
+                             f + "::MetricsCollector"))
+        u.append(g.type_text(f, S.top(f, "struct", "MessageProcessingGuard"), f + "::MessageProcessingGuard"))
+        gi = S.impl_by(f, self_starts="MessageProcessingGuard<", trait_head=None)
+        u.append(g.impl_text(f, gi, ["new"], f + "::MessageProcessingGuard"))
+        di = S.impl_by(f, trait_head="Drop", self_starts="MessageProcessingGuard<")
+        u.append(g.impl_text(f, di, ["drop"], f + "::Drop for MessageProcessingGuard", header="",
+                             lift={"drop": ("drop__MessageProcessingGuard", "MessageProcessingGuard<'_>")}, bare=True))
+        units.append(("metrics", "\n".join(u)))
+
     # ---------------- dead letters
     u = [g.fn_text("dead_letter.rs", S.top("dead_letter.rs", "fn", "record"), "dead_letter.rs::record")]
     units.append(("dead_letter", "\n".join(u)))
